@@ -716,10 +716,11 @@ Definition ideal_view (s : st) : view :=
          (negb (c_wr_open s) && negb (t_wr_open s)).
 
 Lemma quiescent_view c s : eos_prop c = true -> Inv c s -> quiescentb s = true -> wbuf s = [] ->
+  c_abort s = false -> t_abort s = false ->
   view_of s = ideal_view s.
 Proof.
-  intros EP I Q W.
-  destruct (delivery_quiescent_inv c s I Q W) as (A & B).
+  intros EP I Q W NA NB.
+  destruct (delivery_quiescent_inv c s I Q W NA NB) as (A & B).
   destruct (eos_quiescent_inv c s EP I Q) as (E1 & E2 & E3).
   pose proof (no_premature_eos_inv c s I) as (P1 & P2).
   pose proof (released_only_when_done_inv c s I) as RL.
@@ -737,12 +738,44 @@ Proof.
 Qed.
 
 Lemma checkpoint_view e p tr s :
-  reachable repaired e p tr s -> quiescentb s = true -> view_of s = spec_view e p tr.
+  reachable repaired e p tr s -> quiescentb s = true ->
+  client_aborted tr = false -> target_aborted tr = false ->
+  view_of s = spec_view e p tr.
+Proof.
+  intros R Q NA NB. pose proof (inv_reachable _ _ _ _ _ R) as I.
+  destruct (sent_is_written _ _ _ _ _ R) as (A & B & C & D & E & F).
+  rewrite NA in E. rewrite NB in F.
+  rewrite (quiescent_view repaired s eq_refl I Q (i_nobuf _ _ I eq_refl) E F).
+  unfold ideal_view, spec_view. rewrite A, B, C, D. repeat rewrite negb_involutive. reflexivity.
+Qed.
+
+(* With abortive closes: the surviving end is shown end-of-stream exactly when
+   its peer shut or aborted, never loses or reorders what it receives, and the
+   proxy releases both connections once both ends are done. *)
+Lemma checkpoint_view_abort e p tr s :
+  reachable repaired e p tr s -> quiescentb s = true ->
+  (target_aborted tr = false -> t_eos s = client_shut tr) /\
+  (client_aborted tr = false -> c_eos s = target_shut tr) /\
+  (client_shut tr = true -> target_shut tr = true -> closed s = true) /\
+  (exists rest, t_in s ++ rest = e ++ client_bytes tr) /\
+  (exists rest, c_in s ++ rest = p ++ target_bytes tr).
 Proof.
   intros R Q. pose proof (inv_reachable _ _ _ _ _ R) as I.
-  rewrite (quiescent_view repaired s eq_refl I Q (i_nobuf _ _ I eq_refl)).
-  destruct (sent_is_written _ _ _ _ _ R) as (A & B & C & D).
-  unfold ideal_view, spec_view. rewrite A, B, C, D. repeat rewrite negb_involutive. reflexivity.
+  destruct (sent_is_written _ _ _ _ _ R) as (A & B & C & D & E & F).
+  destruct (eos_quiescent_inv repaired s eq_refl I Q) as (E1 & E2 & E3).
+  pose proof (no_premature_eos_inv repaired s I) as (P1 & P2).
+  split; [|split; [|split; [|split]]].
+  - intro NB. rewrite NB in F.
+    destruct (client_shut tr) eqn:CS; simpl in C.
+    + first [apply E1; exact C|apply (E1 C)].
+    + destruct (t_eos s) eqn:T; [|reflexivity]. first [destruct (P1 T) as ([X|X] & _)|destruct (P1 eq_refl) as ([X|X] & _)]; congruence.
+  - intro NA. rewrite NA in E.
+    destruct (target_shut tr) eqn:TS; simpl in D.
+    + first [apply E2; exact D|apply (E2 D)].
+    + destruct (c_eos s) eqn:T; [|reflexivity]. first [destruct (P2 T) as ([X|X] & _)|destruct (P2 eq_refl) as ([X|X] & _)]; congruence.
+  - intros CS TS. rewrite CS in C. rewrite TS in D. simpl in C, D. apply E3; assumption.
+  - exists (wbuf s ++ rbuf s ++ c2t_src s). rewrite <- A. apply (i_c2t _ _ I).
+  - exists (t2c_src s). rewrite <- B. apply (i_t2c _ _ I).
 Qed.
 
 Lemma client_bytes_app a b : client_bytes (a ++ b) = client_bytes a ++ client_bytes b.
@@ -760,26 +793,45 @@ Proof. apply existsb_app. Qed.
 Lemma target_shut_app a b : target_shut (a ++ b) = target_shut a || target_shut b.
 Proof. apply existsb_app. Qed.
 
+Definition no_abort_phase (p : pact) : Prop :=
+  fin_abort (pa_cfin p) = false /\ fin_abort (pa_tfin p) = false.
+
+Lemma phase_labels_env p :
+  client_bytes (phase_labels p) = pa_c p /\ target_bytes (phase_labels p) = pa_t p /\
+  client_shut (phase_labels p) = pa_cshut p /\ target_shut (phase_labels p) = pa_tshut p /\
+  client_aborted (phase_labels p) = fin_abort (pa_cfin p) /\
+  target_aborted (phase_labels p) = fin_abort (pa_tfin p).
+Proof.
+  unfold phase_labels, pa_cshut, pa_tshut. destruct p as [c cf t tf]; simpl.
+  destruct c, t, cf, tf; simpl; repeat rewrite app_nil_r; auto 10.
+Qed.
+
 Lemma run_script_meets_spec_gen e p : forall ps s pre vs,
-  Inv repaired s ->
+  Forall no_abort_phase ps ->
+  Inv repaired s -> c_abort s = false -> t_abort s = false ->
   c_sent s = e ++ client_bytes pre -> t_sent s = p ++ target_bytes pre ->
   c_wr_open s = negb (client_shut pre) -> t_wr_open s = negb (target_shut pre) ->
   run_script repaired s ps = Some vs -> vs = spec_views_from e p pre ps.
 Proof.
-  induction ps as [|p0 ps IH]; intros s pre vs I A B C D RS.
+  induction ps as [|p0 ps IH]; intros s pre vs NAP I NA NB A B C D RS.
   - simpl in RS. inversion RS. reflexivity.
   - cbn [run_script] in RS.
     destruct (run repaired s (phase_labels p0)) as [s1|] eqn:R1; [|discriminate].
     destruct (settle repaired (S (measure s1)) s1) as [s2|] eqn:S2; [|discriminate].
     destruct (run_script repaired s2 ps) as [vs'|] eqn:RS'; [|discriminate].
     inversion RS; subst vs; clear RS.
+    inversion NAP as [|? ? (NP1 & NP2) NAP']; subst.
     destruct (settle_ok repaired (S (measure s1)) s1) as (s2' & tr2 & S2' & Q & F & R2); [lia|].
     rewrite S2 in S2'. inversion S2'; subst s2'; clear S2'.
     pose proof (inv_run _ _ _ _ I R1) as I1. pose proof (inv_run _ _ _ _ I1 R2) as I2.
-    destruct (ghost_run _ _ _ _ R1) as (A1 & B1 & C1 & D1).
-    destruct (ghost_run _ _ _ _ R2) as (A2 & B2 & C2 & D2).
-    destruct (internal_no_env tr2 F) as (N1 & N2 & N3 & N4).
-    rewrite N1, N2, N3, N4 in *. rewrite app_nil_r in A2, B2. simpl in C2, D2. rewrite andb_true_r in C2, D2.
+    destruct (ghost_run _ _ _ _ R1) as (A1 & B1 & C1 & D1 & E1 & F1).
+    destruct (ghost_run _ _ _ _ R2) as (A2 & B2 & C2 & D2 & E2 & F2).
+    destruct (internal_no_env tr2 F) as (N1 & N2 & N3 & N4 & N5 & N6).
+    destruct (phase_labels_env p0) as (_ & _ & _ & _ & L5 & L6).
+    rewrite N1, N2, N3, N4, N5, N6 in *. rewrite app_nil_r in A2, B2. simpl in C2, D2.
+    rewrite andb_true_r in C2, D2. rewrite orb_false_r in E2, F2.
+    rewrite L5, NP1, NA in E1. rewrite L6, NP2, NB in F1. simpl in E1, F1.
+    rewrite E1 in E2. rewrite F1 in F2.
     set (pre' := pre ++ phase_labels p0).
     assert (A' : c_sent s2 = e ++ client_bytes pre').
     { unfold pre'. rewrite A2, A1, A, client_bytes_app, app_assoc. reflexivity. }
@@ -790,16 +842,17 @@ Proof.
     assert (D' : t_wr_open s2 = negb (target_shut pre')).
     { unfold pre'. rewrite D2, D1, D, target_shut_app, negb_orb. reflexivity. }
     simpl. fold pre'. f_equal.
-    + rewrite (quiescent_view repaired s2 eq_refl I2 Q (i_nobuf _ _ I2 eq_refl)).
+    + rewrite (quiescent_view repaired s2 eq_refl I2 Q (i_nobuf _ _ I2 eq_refl) E2 F2).
       unfold ideal_view, spec_view. rewrite A', B', C', D'. repeat rewrite negb_involutive. reflexivity.
     + eapply IH; eassumption.
 Qed.
 
 Lemma run_script_meets_spec e p ps vs :
+  Forall no_abort_phase ps ->
   run_script repaired (init e p) ps = Some vs -> vs = spec_views e p ps.
 Proof.
-  intro RS. unfold spec_views.
-  eapply (run_script_meets_spec_gen e p ps (init e p) []); try exact RS; simpl;
+  intros NAP RS. unfold spec_views.
+  eapply (run_script_meets_spec_gen e p ps (init e p) []); try exact RS; try exact NAP; simpl;
     try rewrite app_nil_r; try reflexivity. apply inv_init.
 Qed.
 
@@ -891,12 +944,16 @@ Proof. unfold fail_ok. rewrite andb_true_iff, N.eqb_eq. tauto. Qed.
 (* ------------------------------------------------------------------ *)
 
 Lemma no_premature_eos c e p tr s : reachable c e p tr s ->
-  (t_eos s = true -> c_wr_open s = false /\ t_in s = c_sent s) /\
-  (c_eos s = true -> t_wr_open s = false /\ c_in s = t_sent s).
+  (t_eos s = true -> (c_wr_open s = false \/ t_abort s = true) /\
+                     (c_abort s = false -> t_abort s = false -> t_in s = c_sent s)) /\
+  (c_eos s = true -> (t_wr_open s = false \/ c_abort s = true) /\
+                     (c_abort s = false -> t_abort s = false -> c_in s = t_sent s)).
 Proof. intro R. exact (no_premature_eos_inv c s (inv_reachable _ _ _ _ _ R)). Qed.
 
 Lemma released_only_when_both_done c e p tr s : reachable c e p tr s -> closed s = true ->
-  c_wr_open s = false /\ t_wr_open s = false /\ t_in s = c_sent s /\ c_in s = t_sent s.
+  (c_wr_open s = false \/ t_abort s = true) /\ (t_wr_open s = false \/ c_abort s = true) /\
+  (c_abort s = false -> t_abort s = false ->
+   c_wr_open s = false /\ t_wr_open s = false /\ t_in s = c_sent s /\ c_in s = t_sent s).
 Proof. intro R. exact (released_only_when_done_inv c s (inv_reachable _ _ _ _ _ R)). Qed.
 
 Lemma settle_reaches_quiescence c s :
@@ -906,6 +963,7 @@ Proof. apply settle_ok. apply Nat.lt_succ_diag_r. Qed.
 
 Lemma delivery_quiescent e p tr s :
   reachable repaired e p tr s -> quiescentb s = true ->
+  c_abort s = false -> t_abort s = false ->
   t_in s = c_sent s /\ c_in s = t_sent s.
 Proof.
   intros R Q. pose proof (inv_reachable _ _ _ _ _ R) as I.
@@ -914,15 +972,27 @@ Qed.
 
 Lemma eos_quiescent e p tr s :
   reachable repaired e p tr s -> quiescentb s = true ->
-  (c_wr_open s = false -> t_eos s = true /\ t_in s = c_sent s) /\
-  (t_wr_open s = false -> c_eos s = true /\ c_in s = t_sent s) /\
+  (c_wr_open s = false ->
+     t_eos s = true /\ (c_abort s = false -> t_abort s = false -> t_in s = c_sent s)) /\
+  (t_wr_open s = false ->
+     c_eos s = true /\ (c_abort s = false -> t_abort s = false -> c_in s = t_sent s)) /\
   (c_wr_open s = false -> t_wr_open s = false -> closed s = true).
 Proof.
   intros R Q. exact (eos_quiescent_inv repaired s eq_refl (inv_reachable _ _ _ _ _ R) Q).
 Qed.
 
+Lemma abort_quiescent e p tr s :
+  reachable repaired e p tr s -> quiescentb s = true ->
+  (c_abort s = true -> t_eos s = true) /\ (t_abort s = true -> c_eos s = true) /\
+  ((c_wr_open s = false \/ c_abort s = true) -> (t_wr_open s = false \/ t_abort s = true) ->
+   closed s = true).
+Proof.
+  intros R Q. exact (abort_quiescent_inv repaired s eq_refl (inv_reachable _ _ _ _ _ R) Q).
+Qed.
+
 Lemma delivery_quiescent_original_partial p tr s :
   reachable original [] p tr s -> quiescentb s = true ->
+  c_abort s = false -> t_abort s = false ->
   t_in s = c_sent s /\ c_in s = t_sent s.
 Proof.
   intros R Q. pose proof (inv_reachable _ _ _ _ _ R) as I.
@@ -934,7 +1004,8 @@ Qed.
 Lemma eos_quiescent_original_partial e p tr s :
   reachable original e p tr s -> quiescentb s = true ->
   c_wr_open s = false -> t_wr_open s = false ->
-  closed s = true /\ t_eos s = true /\ c_eos s = true /\ t_in s = c_sent s /\ c_in s = t_sent s.
+  closed s = true /\ t_eos s = true /\ c_eos s = true /\
+  (c_abort s = false -> t_abort s = false -> t_in s = c_sent s /\ c_in s = t_sent s).
 Proof. intros R Q. exact (eos_quiescent_weak_inv original s (inv_reachable _ _ _ _ _ R) Q). Qed.
 
 Open Scope char_scope.
@@ -955,6 +1026,16 @@ Proof.
   split; [vm_compute; reflexivity|]. repeat split; vm_compute; reflexivity.
 Qed.
 
+(* the code as it was: the client aborts, its copy loop ends with an error,
+   nothing else can happen, and the target has not been told *)
+Lemma abort_quiescent_original_refuted :
+  exists tr s, reachable original [] [] tr s /\ quiescentb s = true /\
+               c_abort s = true /\ t_eos s = false.
+Proof.
+  exists [ClientAbort; Err1]. eexists.
+  split; [vm_compute; reflexivity|]. repeat split; vm_compute; reflexivity.
+Qed.
+
 Lemma connect_fail_both :
   connect_response DialErr = mkResp 502 true false /\
   forall st w, fail_ok st w = true <-> st = 502%N /\ w = true.
@@ -966,14 +1047,6 @@ Proof. split; [exact connect_fail_502|exact fail_ok_iff]. Qed.
 
 Definition nphase_of (p : pact) : nphase :=
   mkNphase (N.of_nat (length (pa_c p))) (pa_cshut p) (N.of_nat (length (pa_t p))) (pa_tshut p).
-
-Lemma phase_labels_env p :
-  client_bytes (phase_labels p) = pa_c p /\ target_bytes (phase_labels p) = pa_t p /\
-  client_shut (phase_labels p) = pa_cshut p /\ target_shut (phase_labels p) = pa_tshut p.
-Proof.
-  unfold phase_labels. destruct p as [c cs t ts]; simpl.
-  destruct c, t, cs, ts; simpl; repeat rewrite app_nil_r; auto.
-Qed.
 
 Lemma measure_end_prefix a rest eos :
   measure_end a (a ++ rest) eos = mkEobs (N.of_nat (length a)) true eos.
@@ -1000,7 +1073,7 @@ Lemma oracle_accepts_ideal_gen e p : forall ps pre,
 Proof.
   induction ps as [|p0 ps IH]; intro pre; [reflexivity|].
   cbn [map spec_views_from c04_ok_from concat].
-  destruct (phase_labels_env p0) as (E1 & E2 & E3 & E4).
+  destruct (phase_labels_env p0) as (E1 & E2 & E3 & E4 & _ & _).
   specialize (IH (pre ++ phase_labels p0)).
   set (A := (e ++ client_bytes pre) ++ pa_c p0).
   set (B := (p ++ target_bytes pre) ++ pa_t p0).
